@@ -10,9 +10,12 @@ from .common import *
 
 TEXTS = ["echo @(a|b) !(c)", "x=a:~/b ~/c", "cat <(ls) |& cat &> f", "function f { :; }; f() ( : )", "echo $'a\\tb' ${x^^} ${x,,}", "[[ a == @(a|b) ]] && echo y", "echo a|b ?(x) +(y)", "time -p true; coproc true",
          "for ((i=0;i<2;i++)); do :; done", "echo {a,b} ~+ $[1+2]", "select x in a; do :; done", "echo `echo x` \"$(echo y)\""]
+# texts that the word grammar and the here-document-body grammar (and the other sibling entry points) read differently
+WTEXTS = ['"hello" $name\n', "'a' \\$x ~", "~/x $y", 'a\\\\b "q" `c`', "x=~/a:~b", "{a,b}$c'd'", "v:-\"w\" $z", '$(echo "a") \\"', "a{1..3}\"b\"", "n=$'x' \\n"]
 ARITH = ["1+2", "x<<2", "a?b:c", "++1", "0x10 + 010 + 2#11", "x = y = 3", "1 +", "(1"]
 OPTSETS = [(False, False, False), (True, False, False), (False, True, False), (False, False, True), (True, True, False), (True, False, True)]
 APIS = ["tok", "word", "prog"]
+WAPIS = ["word", "heredoc", "param", "brace", "asg"]
 
 
 def drv(histories, timeout=600):
@@ -39,14 +42,15 @@ def run_part(v, tier):
     r1 = run_tlc("MC_Caches", "MC_Caches_ideal.cfg", workers=4, want_lines=("HIST",), timeout=1200)
     if not r1["ok"]:
         raise ToolError("Caches.tla: Transparent does not hold: %s" % r1["violation"])
-    r2 = run_tlc("MC_Caches", "MC_Caches_dev.cfg", workers=2, timeout=600)
-    if r2["ok"]:
-        raise ToolError("Caches.tla self-test: a key without the options should violate Transparent")
+    for neg in ("MC_Caches_dev.cfg", "MC_Caches_devkind.cfg"):
+        r2 = run_tlc("MC_Caches", neg, workers=2, timeout=600)
+        if r2["ok"]:
+            raise ToolError("Caches.tla self-test: a key without the options / without the entry point should violate Transparent (%s)" % neg)
     hists = [h["h"] for h in r1["lines"]["HIST"]]
     hists.sort(key=json.dumps)
     rnd = random.Random(SEED)
     # reference: every distinct lookup as the first lookup of a fresh process
-    distinct = [(a, t, o) for a in APIS for t in TEXTS for o in OPTSETS] + [("arith", t, OPTSETS[0]) for t in ARITH]
+    distinct = [(a, t, o) for a in APIS for t in TEXTS for o in OPTSETS] + [("arith", t, OPTSETS[0]) for t in ARITH] + [(a, t, o) for a in WAPIS for t in WTEXTS for o in OPTSETS[:3]]
 
     def ref_one(x):
         out, rc, err = drv([[op(*x)]], timeout=60)
@@ -57,18 +61,25 @@ def run_part(v, tier):
             raise ToolError("cachedrv gave no reference for %r" % (x,))
         ref[(x[0], x[1], tuple(x[2]))] = val
     # instantiate the abstract histories: t1..t3 / o1..o3 -> concrete texts / option sets (several instantiations per history)
-    n_inst = 3 if tier == "quick" else 12
+    n_inst = 2 if tier == "quick" else 10
     concrete = []
     for h in hists:
         for _ in range(n_inst):
-            api = rnd.choice(APIS + ["arith"])
-            if api == "arith":
-                tmap = dict(zip(("t1", "t2", "t3"), rnd.sample(ARITH, 3)))
-                omap = {"o1": OPTSETS[0], "o2": OPTSETS[0], "o3": OPTSETS[0]}
+            # k1 / k2: two entry points of one family (a family shares texts); t1 / t2, o1 / o2: texts and option sets
+            fam = rnd.random()
+            if fam < 0.5:
+                kmap = dict(zip(("k1", "k2"), rnd.sample(WAPIS, 2)))
+                tmap = dict(zip(("t1", "t2"), rnd.sample(WTEXTS, 2)))
+                omap = dict(zip(("o1", "o2"), rnd.sample(OPTSETS[:3], 2)))
+            elif fam < 0.85:
+                kmap = dict(zip(("k1", "k2"), rnd.sample(APIS, 2)))
+                tmap = dict(zip(("t1", "t2"), rnd.sample(TEXTS, 2)))
+                omap = dict(zip(("o1", "o2"), rnd.sample(OPTSETS, 2)))
             else:
-                tmap = dict(zip(("t1", "t2", "t3"), rnd.sample(TEXTS, 3)))
-                omap = dict(zip(("o1", "o2", "o3"), rnd.sample(OPTSETS, 3)))
-            ops = [{"api": "flood"} if st == ["flood"] else op(api, tmap[st[0]], omap[st[1]]) for st in h]
+                kmap = {"k1": "arith", "k2": "arith"}
+                tmap = dict(zip(("t1", "t2"), rnd.sample(ARITH, 2)))
+                omap = {"o1": OPTSETS[0], "o2": OPTSETS[0]}
+            ops = [{"api": "flood"} if st == ["flood"] else op(kmap[st[0]], tmap[st[1]], omap[st[2]]) for st in h]
             concrete.append(ops)
     # one long-lived process per chunk: all its histories form one long history
     chunks = [concrete[i::8] for i in range(8)]
@@ -93,5 +104,5 @@ def run_part(v, tier):
                 if got != exp:
                     v.violation("c:%s|%s|%s" % (o["api"], o["text"], (o["eg"], o["posix"], o["sh"])),
                                 {"kind": "a parse result depends on what was parsed before", "part": "c", "lookup": o, "history": ops, "expected_hash": exp, "observed_hash": got})
-    return {"states": r1["distinct"] + r2["distinct"], "histories": len(concrete), "lookups": lookups, "maxlen": 4,
+    return {"states": r1["distinct"], "histories": len(concrete), "lookups": lookups, "maxlen": 4,
             "sample": {"history": concrete[len(concrete) // 2]}}
